@@ -541,6 +541,25 @@ fn main() {
     for i in r { println(i); }
 }
 `}},
+	{Name: "empty-literals-filled-in-place", Tree: true, Mods: map[string]string{"main": `fn tag(key: str) -> [str] {
+    let o = new { ? };
+    o.set(key, 1);
+    o.keys()
+}
+fn fill(n: int) -> [int] {
+    let l: [int] = [];
+    l.push(n);
+    l
+}
+fn main() {
+    println(tag("a"), tag("b"), fill(1), fill(2));
+    let box = new { inner: new { ? }, items: [""] };
+    box.inner.set("x", 1);
+    box.items.pop();
+    box.items.push("y");
+    println(box.inner.keys(), box.items);
+}
+`}},
 }
 
 func init() {
